@@ -399,7 +399,12 @@ def gen_project(R, bvmods, today, *, eol_choices=("\n",), filler="plain", legacy
                 # for the config section itself")
                 own = [extra_selfp]
                 proj.meta["own_line_pattern_left_to_bumpver"] = True
-        entries.insert(pos, (proj.cfg_name, own))
+        cfg_key = proj.cfg_name
+        if extra_selfp and R.random() < 0.35:
+            # ... under another spelling of its own name
+            cfg_key = "./" + proj.cfg_name
+            proj.meta["cfg_listed_under_alias"] = True
+        entries.insert(pos, (cfg_key, own))
     if fmt == "cfg" and any(("=" in k or ":" in k) for k, _ in entries):
         return None, "ini-key"
     proj.entries = entries
@@ -561,7 +566,7 @@ def gen_project(R, bvmods, today, *, eol_choices=("\n",), filler="plain", legacy
     why = prove_unambiguous(proj)
     if why:
         return None, "layout:" + why.split(":")[0]
-    proj.meta = {"cfg_comment": proj.meta.get("cfg_comment"), "repeated_occurrences": proj.meta.get("repeated_occurrences", 0), "cfg_extra": commit_cfg, "bom_files": proj.meta.get("bom_files", []), "n_files": nf, "fmt": fmt, "explicit_cfg": explicit_cfg, "quote": quote,
+    proj.meta = {"cfg_comment": proj.meta.get("cfg_comment"), "repeated_occurrences": proj.meta.get("repeated_occurrences", 0), "cfg_extra": commit_cfg, "bom_files": proj.meta.get("bom_files", []), "n_files": nf, "fmt": fmt, "explicit_cfg": explicit_cfg, "cfg_listed_under_alias": proj.meta.get("cfg_listed_under_alias", False), "quote": quote,
                  "aliased_path_entries": proj.meta.get("aliased_path_entries", 0),
                  "own_line_pattern_left_to_bumpver": proj.meta.get("own_line_pattern_left_to_bumpver", False),
                  "end_anchored_patterns": proj.meta.get("end_anchored_patterns", 0),
@@ -847,13 +852,12 @@ def reorder_entries(proj, perm, R=None):
     if proj.cfg_name not in order:
         order.append(proj.cfg_name)
     q.write_order = order
-    # the config's own planted line moved
-    needle = [pl for pl in proj.plants if pl.file == proj.cfg_name][0].text
-    idx = q.files[proj.cfg_name].find(needle)
+    # the config's own planted lines moved (the current_version line, and the comment line of an extra pattern)
     q.plants = [pl for pl in proj.plants if pl.file != proj.cfg_name]
-    old = [pl for pl in proj.plants if pl.file == proj.cfg_name][0]
-    q.plants.append(Plant(file=proj.cfg_name, start=idx, end=idx + len(needle), kind=old.kind, raw=old.raw,
-                          norm=old.norm, ast=old.ast, text=needle))
+    for old in [pl for pl in proj.plants if pl.file == proj.cfg_name]:
+        idx = q.files[proj.cfg_name].find(old.text)
+        q.plants.append(Plant(file=proj.cfg_name, start=idx, end=idx + len(old.text), kind=old.kind, raw=old.raw,
+                              norm=old.norm, ast=old.ast, text=old.text))
     return q
 
 
